@@ -82,6 +82,12 @@ fn atoms() -> Vec<Value> {
     for t in ["", "a", "b", "ab", "true", "1", "é"] {
         v.push(Value::Text(Text::new(t)));
     }
+    // texts that differ only by trailing NUL characters, and texts around the boundary between
+    // the inline (<= 24 bytes) and the heap representation of `Text`
+    let x23 = "x".repeat(23);
+    for t in ["\0".to_string(), "a\0".to_string(), "a\0\0".to_string(), x23.clone(), format!("{}x", x23), format!("{}xx", x23), format!("{}\0", x23), format!("{}x\0", x23)] {
+        v.push(Value::Text(Text::new(&t)));
+    }
     for d in [vec![], vec![0u8], vec![1], vec![0, 0], vec![255], vec![1, 0]] {
         v.push(Value::Data(Blob::from_vec(d)));
     }
